@@ -128,6 +128,7 @@ struct WorldOptions {
   std::string definitions;    // CSV text
   std::string htmlPath;
   bool enableHex = true, enableDefine = false;
+  std::string configPath;     // when set: the definitions are loaded from <configPath>/world.csv through ScanHelper (so that 'reload' works)
   unsigned pollInterval = 0;
   uint8_t address = 0x31;
   bool readOnly = false;
@@ -151,14 +152,14 @@ struct World {
   explicit World(const WorldOptions& o) : wo(o) {
     memset(&opt, 0, sizeof(opt));
     if (!wo.acl.empty()) { aclPath = tmpDir() + "/acl.csv"; writeFile(aclPath, wo.acl); }
-    opt.device = "sim"; opt.configPath = ""; opt.initialScan = ESC; opt.preferLanguage = "";
+    opt.device = "sim"; opt.configPath = wo.configPath.c_str(); opt.initialScan = ESC; opt.preferLanguage = "";
     opt.pollInterval = wo.pollInterval; opt.address = wo.address; opt.readOnly = wo.readOnly;
     opt.accessLevel = wo.accessLevel.c_str(); opt.aclFile = aclPath.c_str();
     opt.enableHex = wo.enableHex; opt.enableDefine = wo.enableDefine;
     opt.htmlPath = wo.htmlPath.c_str(); opt.scanConfig = false; opt.updateCheck = false;
     opt.pidFile = ""; opt.logFile = ""; opt.logRawFile = ""; opt.dumpFile = ""; opt.dumpConfigTo = "";
     messages.reset(new MessageMap(false, "", false));  // as main.cpp; deleteData=false: the ident fields are a process-wide singleton
-    scan.reset(new ScanHelper(messages.get(), "", "", "", "", nullptr, false));
+    scan.reset(new ScanHelper(messages.get(), wo.configPath, wo.configPath.empty() ? "" : wo.configPath + "/", "", "", nullptr, false));
     messages->setResolver(scan.get());
     bus.reset(new BusHandler(messages.get(), scan.get(), wo.pollInterval));
     ebus_protocol_config_t cfg;
@@ -167,7 +168,9 @@ struct World {
     cfg.busAcquireTimeout = 10; cfg.slaveRecvTimeout = 25; cfg.lockCount = 5;
     proto = new StubProtocol(cfg, new PlainDevice(new vbus::SimTransport("sim", 0, false)), bus.get());
     bus->setProtocol(proto);
-    if (!wo.definitions.empty()) {
+    if (!wo.configPath.empty()) {
+      loadResult = scan->loadConfigFiles(true);
+    } else if (!wo.definitions.empty()) {
       std::istringstream in(wo.definitions);
       loadResult = messages->readFromStream(&in, "world.csv", 1, true, nullptr, &loadError);
     }
